@@ -273,7 +273,49 @@ def check_builtins(ctx, FB):
             if err or s != len(body):
                 ctx.violate("builtin.siblings", key + "|size", f"{ty}::size() = {s if not err else err}, the value is written as {len(body)} bytes", rd["file"], rd["line"])
                 break
-    ctx.rule("builtin.siblings", n_types, floor=8, note=f"hand-written mask / conditional built-ins: decode -> encode identity and size() over {cases} mask patterns / cases")
+    # monster-move splines: u32 count, first element a raw Vector3d, the rest packed into 4 bytes each. The packing pair is
+    # treated as an opaque inverse pair here (its own lossiness is the known finding of taint.builtin-lossless); decided:
+    # count field, element order, bytes consumed = bytes written = size().
+    P = "crate::util::functions::shared::"
+    rd, wr, sz = F.fn(P + "read_monster_move_spline"), F.fn(P + "write_monster_move_spline"), F.fn(P + "monster_move_spline_size")
+    if rd is None or wr is None or sz is None:
+        ctx.violate("builtin.siblings", "anchor|monster_move_spline", "read_monster_move_spline / write_monster_move_spline / monster_move_spline_size not found (anchor disappeared)")
+    else:
+        n_types += 1
+
+        def unpack(a):
+            return ("packedvec", a[0])
+
+        def pack(a):
+            if isinstance(a[0], tuple) and a[0] and a[0][0] == "packedvec":
+                return a[0][1]
+            raise Unsupported("vector3d_to_packed applied to an element that was not decoded by packed_to_vector3d")
+
+        def mk():
+            m = Mini(FB, "wow_world_messages")
+            m.overrides = {"::packed_to_vector3d": unpack, "::vector3d_to_packed": pack}
+            return m
+        key = "wow_world_messages::" + P + "monster_move_spline"
+        for n in range(0, 9):
+            cases += 1
+            c = _Counter()
+            body = [n, 0, 0, 0] + (c.toks(12) if n else []) + c.toks(4 * max(n - 1, 0))
+            st = Stream(body + c.toks(EXTRA))
+            v, err = _run(mk(), P + "read_monster_move_spline", [st])
+            if err or not (isinstance(v, tuple) and v[0] == "Ok") or st.pos != len(body) or len(v[1]) != n:
+                what = err or (f"consumes {st.pos} bytes and returns {len(v[1])} elements" if isinstance(v, tuple) and v[0] == "Ok" else repr(v))
+                ctx.violate("builtin.siblings", key + "|read", f"read_monster_move_spline on a {len(body)}-byte encoding of {n} points (count, 12-byte first point, 4 bytes per further point): {what}", rd["file"], rd["line"])
+                break
+            sink = Sink()
+            w, err = _run(mk(), P + "write_monster_move_spline", [v[1], sink])
+            if err or not same_bytes(sink.out, body):
+                ctx.violate("builtin.siblings", key + "|roundtrip", f"write_monster_move_spline of the {n} points decoded from a {len(body)}-byte encoding gives {err or str(len(sink.out)) + ' bytes that differ from the input (count field, element order or element form)'}", wr["file"], wr["line"])
+                break
+            s2, err = _run(mk(), P + "monster_move_spline_size", [v[1]])
+            if err or s2 != len(body):
+                ctx.violate("builtin.siblings", key + "|size", f"monster_move_spline_size() = {s2 if not err else err} for {n} points that are written as {len(body)} bytes", sz["file"], sz["line"])
+                break
+    ctx.rule("builtin.siblings", n_types, floor=9, note=f"hand-written mask / conditional built-ins: decode -> encode identity and size() over {cases} mask patterns / cases")
     return cases
 
 
